@@ -94,6 +94,7 @@ func (sc *dscenario) secretKey() string {
 type runOpts struct {
 	dev     map[int]string
 	banners map[int]sim.BannerSpec
+	bannersByText map[string]sim.BannerSpec
 	keepWork bool   // do not recreate the base directory
 	testTime string // TEST_TIME of the run ("" = the fixed default)
 }
@@ -127,7 +128,7 @@ func runDialogue(scr *core.Scratch, sc *dscenario, o runOpts) *drun {
 	case "ASA", "IOS":
 		flavor := strings.ToLower(sc.devType)
 		ssh = &sim.SSH{Flavor: flavor, Hostname: host, Banner: sc.banner, Pass: sc.secretPass(),
-			Cisco: ciscomodel.Load(sc.device, sc.devType == "IOS"), Dev: o.dev, Banners: o.banners,
+			Cisco: ciscomodel.Load(sc.device, sc.devType == "IOS"), Dev: o.dev, Banners: o.banners, BannersByText: o.bannersByText,
 			NeedEnable: sc.needEnable, HostKeyQ: sc.hostKeyQ, PrepNoop: sc.prepNoop}
 		r.before = ssh.Cisco.Print()
 	case "Linux":
